@@ -501,6 +501,18 @@ static void gen_c11(G &g) {
             i64 v = strcmp(f, "origlen") ? (i64) r.below(70000) : (r.chance(1, 2) ? (i64) r.below(70000) : (i64) ((r.next() >> (1 + r.below(30))) | (1ULL << 32)));
             fx.push(fx_field(f, v, 1)); }
         else if (x < 7) fx.push(fx_flip((i64) r.below(640)));
+        else if (x < 8) {
+            // the checksum words beyond the first (a 128-bit digest uses four), with the checksum type that owns them
+            static const char *cw[] = {"chksum1", "chksum2", "chksum3", "chksum4", "chksum5", "chksum6", "chksum7"};
+            int nw = (int) r.range(1, 7);
+            for (int q = 0; q < nw; q++) fx.push(fx_field(cw[r.below(7)], (i64) (r.next() & 0xffffffffu), 0));
+            fx.push(fx_field("ct", r.chance(1, 2) ? 3 : (i64) r.below(5), 1));
+        }
+        if (r.chance(1, 6)) {   // stamped by another release: before 1.2.0 there is no metadata checksum to re-seal
+            static const u32 vs[] = {0x010000, 0x010001, 0x010009, 0x010100, 0x010101, 0x010103, 0x0101ff, 0x010200, 0x010300, 0x010400, 0x010603, 0x020000};
+            fx.push(fx_field("libver", vs[r.below(12)], (int) r.below(2)));
+            if (r.chance(1, 2)) fx.push(fx_field("metacrc", r.chance(1, 2) ? 0 : (i64) (r.next() & 0xffffffffu), 0));   // ... which such a writer never wrote
+        }
         Json j = mk("SCRUB"); j.set("obj", 0).set("slot", 0).set("dev", (int) r.below(c.n())).set("al", pick_al(r)).set("fx", fx).set("twin", 1);
         g.ops.push(j);
     }
